@@ -65,6 +65,7 @@ pub fn fop_c06(keys: u8) -> impl Strategy<Value = FOp> {
         2 => any::<u16>().prop_map(|j| FOp::DropCaller { j }),
         1 => Just(FOp::Cancel),
         2 => (0..keys).prop_map(|k| FOp::Insert { k }),
+        1 => (0..keys).prop_map(|k| FOp::InsertDiskOnly { k }),
         1 => (0..keys).prop_map(|k| FOp::Remove { k }),
         1 => (0..keys).prop_map(|k| FOp::Get { k }),
         5 => Just(FOp::Settle),
@@ -77,6 +78,7 @@ fn fop_c11(keys: u8) -> impl Strategy<Value = FOp> {
         2 => (any::<u16>(), prop_oneof![2 => Just(DiskRes::Miss), 1 => Just(DiskRes::Hit)]).prop_map(|(i, res)| FOp::DiskResolve { i, res }),
         5 => (any::<u16>(), prop::bool::weighted(0.85)).prop_map(|(i, ok)| FOp::FetchResolve { i, ok }),
         5 => (0..keys).prop_map(|k| FOp::Insert { k }),
+        2 => (0..keys).prop_map(|k| FOp::InsertDiskOnly { k }),
         1 => (0..keys).prop_map(|k| FOp::Remove { k }),
         3 => (0..keys).prop_map(|k| FOp::Get { k }),
         5 => Just(FOp::Settle),
@@ -123,6 +125,7 @@ fn alphabet(which: Which) -> Vec<FOp> {
             FOp::DropCaller { j: last },
             FOp::Cancel,
             FOp::Insert { k: 0 },
+            FOp::InsertDiskOnly { k: 0 },
             FOp::Remove { k: 0 },
             FOp::Settle,
         ],
@@ -136,6 +139,7 @@ fn alphabet(which: Which) -> Vec<FOp> {
             FOp::FetchResolve { i: last, ok: true },
             FOp::FetchResolve { i: first, ok: false },
             FOp::Insert { k: 0 },
+            FOp::InsertDiskOnly { k: 0 },
             FOp::Remove { k: 0 },
             FOp::Get { k: 0 },
             FOp::Settle,
